@@ -775,7 +775,25 @@ class Project(MessageHandler):
 
         # Extend project end if needed
         if min_end_date > self.attributes["end"]:
+            declared_end = self.attributes["end"]
             self.attributes["end"] = min_end_date
+            self._extendLimitIntervals(declared_end, min_end_date)
+
+    def _extendLimitIntervals(self, declared_end: Any, new_end: Any) -> None:
+        """
+        Limits created while parsing cover the declared project interval. When the
+        project end is moved, they have to cover the added part of the horizon too.
+        """
+        scenario_count = len(list(self.scenarios))
+        for properties in (self.resources, self.tasks):
+            for prop in properties:
+                for scIdx in range(scenario_count):
+                    limits = prop.get("limits", scIdx)
+                    for limit in getattr(limits, "_limits", None) or []:
+                        if limit.interval_end == declared_end:
+                            limit.interval_end = new_end
+                            limit._dirty = True
+                            limit.reset()
 
     def initScoreboards(self) -> None:
         if not self.attributes["start"] or not self.attributes["end"]:
